@@ -7,6 +7,7 @@
 //! Only compiled with `--cfg vhdl_ls_rust_hdl_verif`; gives a harness crate access to
 //! crate-private front-end pieces (tokenizer, formatter buffer, symbol table) without changing them.
 
+pub use crate::analysis::root_verif_hooks as root;
 pub use crate::data::{ContentReader, Contents, Symbol, SymbolTable};
 pub use crate::syntax::{Comment, Kind, Symbols, TokenComments, Tokenizer, Value};
 
